@@ -840,6 +840,8 @@ class InterpBase:
         if isinstance(v, TupleV):
             return cls.ext == "builtin.tuple"
         if isinstance(v, Seq):
+            if v.kind == "set":
+                return cls.ext in ("builtin.set", "builtin.frozenset")
             return cls.ext == ("builtin.tuple" if v.kind == "tuple" else "builtin.list") if v.kind != "iter" else False
         if isinstance(v, Opaque):
             return False
